@@ -8,11 +8,24 @@ spelling the form requires.  Both versions run through the real CLI (`-o results
 equality of each remaining function's results entry (single-file = reference), after mapping the spelled
 callee back and dropping the module-path gets the dotted spelling itself introduces.
 
+Module naming and exclusion patterns (props/c06_names.py): the split projects are generated with neutral unique module
+tokens and then renamed so that exclusion patterns — the perennial ones (`rattr`, `rattr\\..*`, `packages?\\.rattr…`) and
+user patterns delivered with `-F` or through pyproject.toml — stand in NEAR-MISS relations to the module names (proper
+prefix / suffix / infix, case, one dotted component, sibling `pkg\\.x` vs `pkg.xy`, …) and never match one in full.  A
+module that is not matched in full is configured to be followed, so (a) the pair oracle applies unchanged and (b) the
+same project under the neutral names and without user patterns must give the same results document name for name
+(signature `not-excluded-module-treated-differently:<relation>`; the relation is computed from the input with
+CPython's `re`).  Same-named definitions: the target may additionally define an uncalled function / class with the name
+and signature of a callee of a followed module; dedicated rows (`same_name_rows`) compare both directions exactly.
+
 Self-checks (internal errors, never violations): CPython itself imports every split project and must bind
 each spelled callee to the moved definition; the Lean spec `Spec.ImportEquiv.expected` must agree with
 CPython.  Correspondence (Tie B): for each cross-module call, the Lean model (`callTargetFor` +
 `resolveImport`, fed with the REAL root-context symbols of every module) vs the real `Context.
 get_call_target` answer recorded in the caller's IR and the real `find_call_target_and_ir`.
+The model computes the ignored-module set itself (`Blacklist.ignoredOf`) from the pattern SOURCES in force; its
+`is_in_import_blacklist` verdict is compared with the real one for every existing module name and for probe names around
+every pattern; the Lean regex fragment is validated against CPython's `re` (internal error on a mismatch).
 """
 from __future__ import annotations
 
@@ -30,6 +43,7 @@ from pathlib import Path
 
 import common
 import impl
+from props import c06_names as nm
 from props import resultslib as rl
 from props import visitlib as vl
 
@@ -145,14 +159,15 @@ def respell(src, ent, spelled):
 # ------------------------------------------------------------------ splitting
 
 class Edge:
-    def __init__(self, u, v, importer, module, form, kind, spelled, depth, chain, qualname):
+    def __init__(self, u, v, importer, module, form, kind, spelled, depth, chain, qualname, hops=()):
         self.u, self.v, self.importer, self.module = u, v, importer, module
         self.form, self.kind, self.spelled = form, kind, spelled
         self.depth, self.chain, self.qualname = depth, chain, qualname
+        self.hops = list(hops)            # the re-exporting modules between importer and module
 
     def meta(self):
         return {"caller": self.u, "callee": self.v, "importer": self.importer, "module": self.module, "form": self.form,
-                "kind": self.kind, "spelled": self.spelled, "depth": self.depth, "chain": self.chain}
+                "kind": self.kind, "spelled": self.spelled, "depth": self.depth, "chain": self.chain, "hops": self.hops}
 
 
 class Split:
@@ -164,6 +179,7 @@ class Split:
         self.modules = {}                 # dotted name -> {"pkg": bool, "imports": [(line, json)], "defs": [src]}
         self.loc = {}                     # entity -> module
         self.edges = []
+        self.shadows = {}                 # entity name -> source of a same-named definition placed in the target
         self.ensure(self.target_mod, False)
         # ensure() creates the parent packages (tp, tp.tq) with empty __init__ files
 
@@ -215,6 +231,7 @@ class Split:
         k = e.import_name
         r = self.rng
         chain = 0
+        via = []
         if form == "import":
             mod = self.new_mod(1)
             self.imp(importer, f"import {mod}", {"k": "plain", "module": mod})
@@ -277,6 +294,7 @@ class Split:
             last = self.fresh("zx")
             mod = f"{pkg}.{last}"
             self.ensure(mod, False)
+            via = [sub]
             self.imp(sub, f"from ..{last} import {k}", {"k": "rel", "level": 2, "module": last, "name": k})
             self.imp(importer, f"from {sub} import {k}", {"k": "from", "module": sub, "name": k})
             prefix = None
@@ -288,6 +306,7 @@ class Split:
             hops = [pkg] + [f"{pkg}.{self.fresh('zy')}" for _ in range(chain - 1)]
             mod = f"{pkg}.{self.fresh('zx')}"
             self.ensure(mod, False)
+            via = list(hops)
             for i, h in enumerate(hops):
                 self.ensure(h, i == 0)
                 nxt = (hops[i + 1] if i + 1 < len(hops) else mod).rsplit(".", 1)[1]
@@ -307,6 +326,7 @@ class Split:
             last = self.fresh("zs")
             mod = f"{pkg}.{last}"
             self.ensure(mod, False)
+            via = [pkg]
             self.imp(pkg, f"from . import {last}", {"k": "rel", "level": 1, "module": None, "name": last})
             self.imp(importer, f"import {pkg}", {"k": "plain", "module": pkg})
             prefix = mod
@@ -320,7 +340,7 @@ class Split:
             spelled = f"{prefix}.{e.spelled}"
         self.loc[v] = mod
         self.modules[mod]["defs"].append(v)
-        self.edges.append(Edge(e.caller, v, importer, mod, form, e.kind, spelled, mod.count(".") + 1, chain, e.spelled))
+        self.edges.append(Edge(e.caller, v, importer, mod, form, e.kind, spelled, mod.count(".") + 1, chain, e.spelled, via))
 
     def build(self):
         ents, r = self.ents, self.rng
@@ -368,6 +388,10 @@ class Split:
             for ed in by_caller.get(n, []):
                 src = respell(src, self.ents[ed.v], ed.spelled)
             out.append(src)
+        if mod == self.target_mod:
+            # same-named definitions: never called, never imported — they must not change anything
+            for n in sorted(self.shadows, key=lambda n: self.ents[n].kind == "func"):
+                out.append(self.shadows[n])
         return "\n".join(out) + ("\n" if out else "")
 
     def files(self):
@@ -387,6 +411,66 @@ class Split:
                 decls.append({"k": "def", "name": e.import_name, "isClass": e.kind != "func", "members": members})
             mods.append({"name": mod, "isPkg": m["pkg"], "decls": decls})
         return mods
+
+    # -------------------------------------------------- same-named definitions in the target
+    def add_shadows(self, rng, p_each=0.5):
+        """For moved callees that the target does not bind by their own name: define, in the target, a function /
+        class of the SAME name and the same signature with a distinctive body.  Python (and the single-file
+        reference, which does not contain it) never calls it; the calls inside the followed modules resolve to the
+        module-local definition."""
+        tops = {e.spelled.split(".")[0] for e in self.edges if e.importer == self.target_mod}
+        for v, mod in self.loc.items():
+            e = self.ents[v]
+            if mod == self.target_mod or e.caller is None or e.import_name in tops or rng.random() >= p_each:
+                continue
+            if self.loc[e.caller] == self.target_mod:
+                # called from the target itself (through a dotted / aliased spelling): a same-named target
+                # definition is legal Python, and the call is spelled differently, but keep this case apart
+                where = "called-from-target"
+            else:
+                where = "called-from-followed-module"
+            node = ast.parse(e.src).body[0]
+            if e.kind == "func":
+                first = (node.args.posonlyargs + node.args.args + node.args.kwonlyargs)[0].arg
+                head = e.src.split("\n", 1)[0]
+                src = f"{head}\n    return {first}.shadow_{v}\n"
+            elif e.kind == "class":
+                init = node.body[0]
+                a = init.args.args[1].arg
+                src = f"class {v}:\n    def __init__(self, {a}):\n        self.shadowed_{v} = {a}.shadow_{v}\n"
+            else:
+                sm = node.body[0]
+                a = sm.args.args[0].arg
+                src = f"class {v}:\n    @staticmethod\n    def {sm.name}({a}):\n        return {a}.shadow_{v}\n"
+            self.shadows[v] = src
+            self.shadow_where = getattr(self, "shadow_where", {})
+            self.shadow_where[v] = where
+        return self
+
+    # -------------------------------------------------- module naming
+    def apply_renaming(self, mapping):
+        """Rename module / package components (neutral unique tokens -> names of the near-miss pools)."""
+        if not mapping:
+            return self
+        rn = lambda x: nm.rename(x, mapping)
+
+        def deep(x):
+            if isinstance(x, str):
+                return rn(x)
+            if isinstance(x, dict):
+                return {k: deep(v) for k, v in x.items()}
+            if isinstance(x, (list, tuple)):
+                return type(x)(deep(v) for v in x)
+            return x
+
+        self.modules = {rn(mod): {"pkg": m["pkg"], "imports": [(rn(l), deep(js)) for l, js in m["imports"]], "defs": m["defs"]}
+                        for mod, m in self.modules.items()}
+        self.loc = {k: rn(v) for k, v in self.loc.items()}
+        for ed in self.edges:
+            ed.importer, ed.module, ed.spelled = rn(ed.importer), rn(ed.module), rn(ed.spelled)
+            ed.hops = [rn(h) for h in ed.hops]
+        self.renaming = dict(mapping)
+        return self
 
 
 def single_source(ents, order):
@@ -427,12 +511,105 @@ def dedicated(rng, i):
     return out
 
 
+def same_name_rows(rng, i):
+    """Split projects in which a followed module's own helper / class has the SAME name (and signature) as a
+    definition of the target, of another followed module, or as a name the target imports from elsewhere.
+    Every call binds, in Python, to the definition of the module the call is written in (module-local), and that
+    is what the single-file version (same program, the clashing definitions renamed apart) computes.
+    -> dicts(label, kind, files, single, exact=[(function, role)])"""
+    A, B = f"zsa{i}", f"zsb{i}"
+    h, g, g2, K, H = f"helper{i}", f"ga{i}", f"gb{i}", f"Kn{i}", f"Hn{i}"
+    par = rng.choice(["x", "item", f"v{i}"])            # the same parameter name in both definitions
+
+    def fn(name, mark):
+        return f"def {name}({par}):\n    return {par}.{mark}\n"
+
+    def cls(name, mark):
+        return f"class {name}:\n    def __init__(self, {par}):\n        self.made_{mark} = {par}.{mark}\n"
+
+    def hold(name, mark):
+        return f"class {name}:\n    @staticmethod\n    def sm({par}):\n        return {par}.{mark}\n"
+
+    use = {"func": lambda n, a: f"    {n}({a})\n", "class": lambda n, a: f"    o = {n}({a})\n    return o\n",
+           "static": lambda n, a: f"    {n}.sm({a})\n"}
+    mk = {"func": fn, "class": cls, "static": hold}
+    nmz = {"func": h, "class": K, "static": H}
+    rows = []
+    for kind in ("func", "class", "static"):
+        n, make, call = nmz[kind], mk[kind], use[kind]
+        caller = f"def caller{i}(p):\n    {g}(p)\n"
+        own = f"def own{i}(q):\n" + call(n, "q")
+        ga = f"def {g}(y):\n" + call(n, "y")
+        gb = f"def {g2}(w):\n" + call(n, "w")
+        # (1) the target defines the same name
+        rows.append({"label": f"target-and-followed-module-define-same-{kind}", "kind": kind,
+                     "files": {"target.py": f"from {A} import {g}\n\n" + make(n, "in_target") + "\n" + caller + "\n" + own,
+                               f"{A}.py": make(n, "in_module") + "\n" + ga},
+                     "single": make(n, "in_target") + "\n" + make(n + "_m", "in_module") + "\n"
+                               + f"def {g}(y):\n" + call(n + "_m", "y") + "\n" + caller + "\n" + own,
+                     "exact": [(f"caller{i}", "call-written-in-followed-module"), (f"own{i}", "call-written-in-target")]})
+        # (2) two followed modules define the same name (the other one is imported first)
+        caller2 = f"def callerb{i}(p):\n    {g2}(p)\n"
+        rows.append({"label": f"two-followed-modules-define-same-{kind}", "kind": kind,
+                     "files": {"target.py": f"from {B} import {g2}\nfrom {A} import {g}\n\n" + caller + "\n" + caller2,
+                               f"{A}.py": make(n, "in_module") + "\n" + ga,
+                               f"{B}.py": make(n, "in_other") + "\n" + gb},
+                     "single": make(n + "_m", "in_module") + "\n" + make(n + "_o", "in_other") + "\n"
+                               + f"def {g}(y):\n" + call(n + "_m", "y") + "\n" + f"def {g2}(w):\n" + call(n + "_o", "w") + "\n"
+                               + caller + "\n" + caller2,
+                     "exact": [(f"caller{i}", "call-written-in-later-imported-module"),
+                               (f"callerb{i}", "call-written-in-first-imported-module")]})
+    # (4) the followed module's class has NO initialiser (no IR entry); a same-named class with an initialiser lives in
+    #     the target / in another followed module: nothing may be borrowed
+    bare = f"class {K}:\n    def method(self, {par}):\n        return {par}.in_method\n"
+    ga_k = f"def {g}(y):\n" + use["class"](K, "y")
+    rows.append({"label": "followed-class-without-initialiser-and-same-named-target-class", "kind": "class",
+                 "files": {"target.py": f"from {A} import {g}\n\n" + cls(K, "in_target") + "\n" + f"def caller{i}(p):\n    {g}(p)\n\n"
+                                        + f"def own{i}(q):\n" + use["class"](K, "q"),
+                           f"{A}.py": bare + "\n" + ga_k},
+                 "single": cls(K, "in_target") + "\n" + bare.replace(f"class {K}:", f"class {K}_m:") + "\n"
+                           + f"def {g}(y):\n" + use["class"](K + "_m", "y") + "\n" + f"def caller{i}(p):\n    {g}(p)\n\n"
+                           + f"def own{i}(q):\n" + use["class"](K, "q"),
+                 "exact": [(f"caller{i}", "call-written-in-followed-module"), (f"own{i}", "call-written-in-target")]})
+    rows.append({"label": "followed-class-without-initialiser-and-same-named-class-in-other-module", "kind": "class",
+                 "files": {"target.py": f"from {B} import {g2}\nfrom {A} import {g}\n\ndef caller{i}(p):\n    {g}(p)\n\n"
+                                        f"def callerb{i}(p):\n    {g2}(p)\n",
+                           f"{A}.py": bare + "\n" + ga_k,
+                           f"{B}.py": cls(K, "in_other") + "\n" + f"def {g2}(w):\n" + use["class"](K, "w")},
+                 "single": cls(K + "_o", "in_other") + "\n" + bare.replace(f"class {K}:", f"class {K}_m:") + "\n"
+                           + f"def {g}(y):\n" + use["class"](K + "_m", "y") + "\n" + f"def {g2}(w):\n" + use["class"](K + "_o", "w") + "\n"
+                           + f"def caller{i}(p):\n    {g}(p)\n\ndef callerb{i}(p):\n    {g2}(p)\n",
+                 "exact": [(f"caller{i}", "call-written-in-later-imported-module"),
+                           (f"callerb{i}", "call-written-in-first-imported-module")]})
+    # (5) the SAME call text (`helper(a)`, same argument name) is made in the target and, below it in the call tree, in
+    #     the followed module — each to its own helper
+    rows.append({"label": "same-call-text-in-target-and-followed-module", "kind": "func",
+                 "files": {"target.py": f"from {A} import {g}\n\n" + fn(h, "in_target") + "\n"
+                                        + f"def both{i}(a):\n    {h}(a)\n    {g}(a)\n\n" + f"def rev{i}(a):\n    {g}(a)\n    {h}(a)\n",
+                           f"{A}.py": fn(h, "in_module") + "\n" + f"def {g}(a):\n    {h}(a)\n"},
+                 "single": fn(h, "in_target") + "\n" + fn(h + "_m", "in_module") + "\n" + f"def {g}(a):\n    {h}_m(a)\n\n"
+                           + f"def both{i}(a):\n    {h}(a)\n    {g}(a)\n\n" + f"def rev{i}(a):\n    {g}(a)\n    {h}(a)\n",
+                 "exact": [(f"both{i}", "target-call-first"), (f"rev{i}", "module-call-first")]})
+    # (3) the target IMPORTS the name from another module; the followed module has its own
+    rows.append({"label": "target-imports-same-named-func-from-elsewhere", "kind": "func",
+                 "files": {"target.py": f"from {B} import {h}\nfrom {A} import {g}\n\ndef caller{i}(p):\n    {g}(p)\n\n"
+                                        f"def own{i}(q):\n    {h}(q)\n",
+                           f"{A}.py": fn(h, "in_module") + "\n" + f"def {g}(y):\n    {h}(y)\n",
+                           f"{B}.py": fn(h, "in_other")},
+                 "single": fn(h, "in_other") + "\n" + fn(h + "_m", "in_module") + "\n" + f"def {g}(y):\n    {h}_m(y)\n\n"
+                           f"def caller{i}(p):\n    {g}(p)\n\ndef own{i}(q):\n    {h}(q)\n",
+                 "exact": [(f"caller{i}", "call-written-in-followed-module"), (f"own{i}", "call-written-in-target")]})
+    return rows
+
+
 # ------------------------------------------------------------------ running
 
-def run_cli(project, target):
+def run_cli(project, target, flags=()):
+    """`flags`: exclusion patterns given on the command line (`-F p`)."""
     env = dict(os.environ, PYTHONHASHSEED="0")
+    opts = [x for f in flags for x in ("-F", f)]
     try:
-        p = subprocess.run([sys.executable, "-m", "rattr", "-w", "none", "-o", "results", target], cwd=str(project),
+        p = subprocess.run([sys.executable, "-m", "rattr", "-w", "none", *opts, "-o", "results", target], cwd=str(project),
                            capture_output=True, text=True, timeout=CLI_TIMEOUT, env=env)
     except subprocess.TimeoutExpired:
         return {"outcome": "timeout"}
@@ -445,6 +622,12 @@ def run_cli(project, target):
         last = [l for l in p.stderr.strip().splitlines() if l and not l.startswith(" ")][-1]
         return {"outcome": "crash", "exc": re.split(r"[:\s]", last)[0].split(".")[-1], "stderr": p.stderr[-600:]}
     return {"outcome": f"exit-{p.returncode}", "stderr": p.stderr[-600:]}
+
+
+def toml_for(patterns):
+    """pyproject.toml delivering the exclusion patterns (TOML literal strings: no escaping)."""
+    assert not any("'" in x for x in patterns)
+    return "[tool.rattr]\nexclude-imports = [" + ", ".join(f"'{x}'" for x in patterns) + "]\n"
 
 
 CPY = r"""
@@ -519,16 +702,83 @@ def msym_json(s, file_ir):
     return {"k": "other", "name": s.name}
 
 
-def correspondence(project, target_rel, edges):
-    """Real get_call_target / find_call_target_and_ir per cross-module call + the model request."""
+def name_facts(name):
+    """What the module locator / isort supply to is_in_import_blacklist for `name` (data of the model)."""
+    from rattr.module_locator import util as U
+    safe_origin = getattr(U, "__safe_origin")
+    return [name, bool(U.is_in_stdlib(name)), [safe_origin(m) for m in U.derive_module_names_right(name)]]
+
+
+def local_calls(file_ir, import_irs, env):
+    """Every call, in any analysed file, whose target is a Func / Class symbol (a LOCAL call): the real
+    find_call_target_and_ir, and the environment as the model sees it (FileIr keys up to ==, their defining files,
+    derive_module_name_from_path of every file)."""
+    from rattr.models.symbol import Class, Func
+    from rattr.module_locator.util import derive_module_name_from_path
+    from rattr.results import IrCall, find_call_target_and_ir
+
+    import attrs
+
+    def dsym(x):
+        f = x.location.defined_in
+        # everything attrs' __eq__ compares besides the name, as one key (the location is not compared)
+        key = repr([(a.name, getattr(x, a.name)) for a in attrs.fields(type(x)) if a.eq and a.name != "name"])
+        return {"kind": "cls" if isinstance(x, Class) else "func", "name": x.name, "iface": key,
+                "file": "" if f is None else str(f)}
+
+    irs = [("", file_ir)] + list(import_irs.items())
+    envj = {"target": [dsym(k) for k in file_ir], "imports": [[n, [dsym(k) for k in ir]] for n, ir in import_irs.items()]}
+    calls, real, files = [], [], set()
+    for _, ir in irs:
+        files.update(dsym(k)["file"] for k in ir)
+    for _, ir in irs:
+        for caller in ir:
+            for call in ir[caller]["calls"]:
+                t = call.target
+                if not isinstance(t, (Func, Class)):
+                    continue
+                files.add(dsym(t)["file"])
+                with impl.Tap():
+                    o = impl.outcome_of(find_call_target_and_ir, IrCall(caller=caller, symbol=call), environment=env)
+                if o[0] != "ok":
+                    rj = {"k": o[1] if o[0] == "crash" else "fatal"}
+                elif o[1] is None:
+                    rj = {"k": "none"}
+                else:
+                    rj = {"k": "found-elsewhere"}
+                    for name, mir in irs:
+                        key = next((k for k in mir if mir[k] is o[1].ir), None)
+                        if key is not None:
+                            rj = {"k": "found", "inTarget": mir is file_ir, "module": name, "key": dsym(key)}
+                            break
+                calls.append(dsym(t))
+                real.append(rj)
+    module_of = {}
+    for f in sorted(files):
+        m = derive_module_name_from_path(f) if f else None
+        if m is not None:
+            module_of[f] = m
+    envj["moduleOf"] = [[f, m] for f, m in module_of.items()]
+    # the hypotheses of C06_local_call_resolves_in_defining_file, checked on the real environment
+    wf = (all(module_of.get(k["file"]) == n for n, ks in envj["imports"] for k in ks)
+          and len(set(module_of.values())) == len(module_of))
+    return {"env": envj, "calls": calls, "real": real, "wf": wf}
+
+
+def correspondence(project, target_rel, edges, user=(), probes=()):
+    """Real get_call_target / find_call_target_and_ir per cross-module call + the model request.
+    `user`: the exclusion patterns in force (in-process: Arguments._excluded_imports).  The model computes the
+    set of ignored modules itself from the pattern SOURCES (its own regex fragment + is_in_import_blacklist).
+    Also returns the real is_in_import_blacklist verdicts for every existing module name and every probe."""
     from rattr.analyser import file as F
+    from rattr.config import Config
     from rattr.models.symbol import Import
-    from rattr.module_locator.util import module_exists
+    from rattr.module_locator.util import is_in_import_blacklist, module_exists
     from rattr.results import IrCall, IrEnvironment, find_call_target_and_ir
 
     rows = []
     with impl.in_dir(str(project)):
-        impl.reset_config(target=Path(target_rel))
+        impl.reset_config(target=Path(target_rel), _excluded_imports=list(user))
         with impl.Tap():
             out = impl.outcome_of(F.parse_and_analyse_file)
         if out[0] != "ok":
@@ -563,7 +813,14 @@ def correspondence(project, target_rel, edges):
             parts = q.split(".")
             cands.update(".".join(parts[:i]) for i in range(1, len(parts) + 1))
         existing = sorted(c for c in cands if module_exists(c))
-        world = {"existing": existing, "ignored": [],
+        patterns = sorted(Config().blacklist_patterns)
+        facts = [name_facts(n) for n in existing]
+        verdicts = {"patterns": patterns,
+                    "names": facts + [name_facts(n) for n in probes if n not in existing],
+                    }
+        verdicts["real"] = [bool(is_in_import_blacklist(f[0])) for f in verdicts["names"]]
+        verdicts["local"] = local_calls(file_ir, import_irs, env)
+        world = {"existing": existing, "ignored": [], "blacklist": {"patterns": patterns, "facts": facts},
                  "irs": [[name, [msym_json(s, ir) for s in ir.context.symbol_table.symbols]]
                          for name, ir in import_irs.items()]}
         for ed, ir, usym, call in found:
@@ -592,7 +849,7 @@ def correspondence(project, target_rel, edges):
                 record = list(call.args.args)
                 req["assignedTo"], req["args"] = ed.assigned, [ed.arg]
             rows.append((ed, {"target": tj, "outcome": oj, "recordArgs": record}, req))
-    return rows, None
+    return rows, verdicts
 
 
 def canon_model(mo, with_record):
@@ -610,6 +867,41 @@ def canon_model(mo, with_record):
     return {"target": tj, "outcome": oj, "recordArgs": mo["recordArgs"] if with_record else None}
 
 
+def literalise(pattern):
+    """One string a pattern of the generated kinds matches (quantified atoms dropped)."""
+    out = re.sub(r"(\\.|.)[?*]", "", pattern)
+    return re.sub(r"\\(.)", r"\1", out)
+
+
+def blacklist_probes(rng, builtin, user):
+    """Names (mostly of modules that do not exist) around every pattern in force: exact matches and near-misses."""
+    out = ["", "rattr", "rattr.x", "rattr.", "rattrx", "xrattr", "rattr_helpers", "package.rattr", "packages.rattr",
+           "packages.rattr.a.b", "packagess.rattr", "xpackages.rattr", "package.rattrs", "Rattr", "os", "os.path", "_thread",
+           "json.decoder", "nosuchmodule_zz"]
+    for x in list(builtin) + list(user):
+        lit = literalise(x)
+        if lit:
+            out += [lit, lit + "x", "x" + lit, lit[:-1], lit[1:], lit + ".sub", lit.swapcase()]
+    out = [n for n in dict.fromkeys(out) if "\n" not in n]
+    return rng.sample(out, min(len(out), 14))
+
+
+def regex_cases(rng, builtin, user, names):
+    pats = list(dict.fromkeys(list(builtin) + user))
+    for _ in range(40):
+        n = rng.randint(1, 5)
+        pats.append("".join(rng.choice(["a", "b", "_", r"\.", ".", "a?", "b*", ".*", r"\.?", ".?", "r", "t"]) for _ in range(n)))
+    pats += ["a+", "[ab]", "a|b", "(a)", "a{2}", "^a", "a$", r"\d", "a??", "a*?", ""]
+    subjects = list(dict.fromkeys(names))[:60] + ["", "a", "ab", "a.b", "aab", "abb", "a_b", "rattr", "rattr.x", "b", ".", "..", "a\nb"]
+    cases = []
+    for x in pats:
+        for sj in rng.sample(subjects, min(len(subjects), 8)):
+            cases.append([x, sj])
+        lit = literalise(x)
+        cases += [[x, lit], [x, lit + "x"], [x, lit[:-1]]]
+    return cases
+
+
 # ------------------------------------------------------------------ the check
 
 def run(tier, seed, build):
@@ -620,15 +912,27 @@ def run(tier, seed, build):
                 "(every form x callee kind at least 5 (quick) / 30 (thorough) times, re-export chains up to 3, star re-export of a name the starred module itself "
                 "imports, relative level 2 inside a package __init__, moved callers whose class / static-method callee lives in the "
                 "same followed module (chain depth >= 2), valid module cycles, name cycles); oracle = equality of each remaining function's results entry with the single-file "
-                "reference after mapping the callee spelling back. non-trivial = distinct (form, callee kind, module depth, "
-                "chain length) of a judged cross-module call")
+                "reference after mapping the callee spelling back. Module / package names vary: neutral unique tokens or names "
+                "that an exclusion pattern (perennial `rattr`, `packages?\\.rattr`, ...; user patterns given with -F or through "
+                "pyproject.toml, generated as near-misses of the project's own module names) matches only as a proper prefix / "
+                "suffix / infix / up to case / as one dotted component — never in full, so every module stays configured to be "
+                "followed; second oracle for those projects: the same project under neutral names and without user patterns gives "
+                "the same results document, name for name. Half of the projects define in the target an uncalled function / class "
+                "with the name and signature of a callee that lives in a followed module; dedicated rows with same-named "
+                "definitions in the target / in two followed modules / imported into the target from elsewhere are compared "
+                "exactly. Correspondence additionally: the model computes the ignored-module set itself from the pattern sources "
+                "(its own regex fragment, validated against CPython's re every run) and its is_in_import_blacklist verdict is "
+                "compared with the real one on every existing module name and on probe names around every pattern. "
+                "non-trivial = distinct (form, callee kind, module depth, chain length) of a judged cross-module call, "
+                "distinct (name-pattern relation, form) of a judged call, distinct same-name row x role")
     rng = random.Random(seed)
     per_cell = 5 if tier == "quick" else 30
     max_pairs = 230 if tier == "quick" else 900
     want = [(f, k) for f in FORMS for k in KINDS for _ in range(per_cell)]
     rng.shuffle(want)
-    tmp = Path(tempfile.mkdtemp(prefix="rattr-c06-"))
+    tmp = Path(tempfile.mkdtemp(prefix="c06-"))     # no excluded name anywhere in the path
     model = common.Model()
+    builtin = nm.builtin_patterns()
     try:
         pairs = []
         while (want or len(pairs) < 40) and len(pairs) < max_pairs:
@@ -638,18 +942,37 @@ def run(tier, seed, build):
             if layout == "pkg" and (any(f == "relative-from-2" for f, _ in want) or rng.random() < 0.2):
                 layout = "pkg2"
             sp = Split(rng, ents, order, layout, want).build()
+            if rng.random() < 0.5:
+                sp.add_shadows(rng)
             i = len(pairs)
-            d1, d2 = tmp / f"s{i}", tmp / f"p{i}"
+            d1, d2, d3 = tmp / f"s{i}", tmp / f"p{i}", tmp / f"n{i}"
             target_rel = sp.target_mod.replace(".", "/") + ".py"
             single_files = {target_rel: single_source(ents, order)}
             if layout != "root":
                 single_files["tp/__init__.py"] = ""
             if layout == "pkg2":
                 single_files["tp/tq/__init__.py"] = ""
+            # ---- module naming and exclusion patterns (near-misses only: every module stays configured to be followed)
+            neutral_files = sp.files()
+            mapping = nm.choose_renaming(rng, list(sp.modules), builtin) if rng.random() < 0.6 else {}
+            sp.apply_renaming(mapping)
+            files = sp.files()
+            paths = [str(d / rel) for d in (d1, d2) for rel in list(files) + list(single_files)]
+            pats = nm.choose_patterns(rng, list(sp.modules), paths, rng.randint(1, 3)) if rng.random() < 0.5 else []
+            user = [x for _, x in pats]
+            via_toml = bool(user) and rng.random() < 0.3
+            if via_toml:
+                files = {**files, "pyproject.toml": toml_for(user)}
+                single_files = {**single_files, "pyproject.toml": toml_for(user)}
             write_project(d1, single_files)
-            write_project(d2, sp.files())
+            write_project(d2, files)
+            twin = bool(mapping or user)
+            if twin:
+                write_project(d3, neutral_files)
             pairs.append({"i": i, "single": d1, "split": d2, "target": target_rel, "sp": sp, "ents": ents, "order": order,
-                          "files": sp.files(), "single_src": single_files[target_rel]})
+                          "files": files, "single_src": single_files[target_rel], "user": user, "pattern_kinds": [k for k, _ in pats],
+                          "flags": [] if via_toml else user, "via_toml": via_toml, "mapping": mapping,
+                          "twin": d3 if twin else None, "neutral_files": neutral_files})
         ded = []
         n_ded = 2 if tier == "quick" else 6
         for j in range(n_ded):
@@ -661,15 +984,24 @@ def run(tier, seed, build):
                     write_project(d1, {"target.py": single})
                 ded.append({"i": i, "label": label, "form": form, "kind": kind, "files": files, "single": d1 if single else None,
                             "single_src": single, "split": d2, "caller": caller, "pyvalid": pyvalid})
+            for row in (same_name_rows(rng, j) if (j == 0 or tier != "quick") else []):
+                i = len(pairs) + len(ded)
+                d1, d2 = tmp / f"s{i}", tmp / f"p{i}"
+                write_project(d2, row["files"])
+                write_project(d1, {"target.py": row["single"]})
+                ded.append({"i": i, "label": row["label"], "form": "from", "kind": row["kind"], "files": row["files"], "single": d1,
+                            "single_src": row["single"], "split": d2, "caller": None, "pyvalid": True, "exact": row["exact"]})
 
         jobs = []
         for p in pairs:
-            jobs.append((p["single"], p["target"]))
-            jobs.append((p["split"], p["target"]))
+            jobs.append((p["single"], p["target"], p["flags"]))
+            jobs.append((p["split"], p["target"], p["flags"]))
+            if p["twin"] is not None:
+                jobs.append((p["twin"], p["target"], []))
         for p in ded:
             if p["single"] is not None:
-                jobs.append((p["single"], "target.py"))
-            jobs.append((p["split"], "target.py"))
+                jobs.append((p["single"], "target.py", []))
+            jobs.append((p["split"], "target.py", []))
         with ThreadPoolExecutor(max_workers=16) as ex:
             outs = list(ex.map(lambda j: run_cli(*j), jobs))
             cpy = list(ex.map(lambda p: run_cpython(p["split"], [[e.importer, e.spelled] for e in p["sp"].edges]), pairs))
@@ -698,17 +1030,28 @@ def run(tier, seed, build):
         # ---- the pair oracle
         for p in pairs:
             o1, o2 = next(it), next(it)
+            o3 = next(it) if p["twin"] is not None else None
             sp, ents = p["sp"], p["ents"]
             res.evaluations += 1
             forms = sorted({e.form for e in sp.edges})
-            case = {"files": p["files"], "single": p["single_src"], "target": p["target"],
+            case = {"files": p["files"], "single": p["single_src"], "target": p["target"], "flags": p["flags"],
                     "edges": [e.meta() for e in sp.edges]}
+            res.count("config:" + ("no-user-pattern" if not p["user"] else "toml" if p["via_toml"] else "cli-F"))
+            for k in p["pattern_kinds"]:
+                res.count("user-pattern:" + k)
+            res.count("project-naming:" + nm.relation_tag(set(sp.modules), builtin, p["user"]))
+            if sp.shadows:
+                res.count("same-named-target-definitions", len(sp.shadows))
             if o1["outcome"] != "ok":
                 res.internal_errors.append({"what": "single-file reference did not run", "out": o1, "source": p["single_src"]})
                 continue
             if o2["outcome"] != "ok":
                 exc = o2.get("exc", o2["outcome"].capitalize())
                 sig = f"import-form-crash:{'+'.join(forms)}:{exc}"
+                if o3 is not None and o3["outcome"] == "ok":
+                    # the same project runs under neutral module names and without user patterns
+                    sig = (f"not-excluded-module-treated-differently:"
+                           f"{nm.relation_tag(set(sp.modules), builtin, p['user'])}:{exc}")
                 res.count("outcome:" + sig)
                 res.violations.append({"signature": sig, "case": case, "detail": o2})
                 continue
@@ -716,8 +1059,46 @@ def run(tier, seed, build):
             by_caller = {}
             for e in sp.edges:
                 by_caller.setdefault(e.u, []).append(e)
+
+            def involved(fn):
+                """the modules (and re-exporting hops) whose names matter for fn's answer"""
+                if fn not in ents:
+                    return set(sp.modules)
+                out, todo = set(), [fn]
+                while todo:
+                    u = todo.pop()
+                    for c in ents[u].calls:
+                        out.add(sp.loc[c])
+                        ed = next((e for e in sp.edges if e.v == c), None)
+                        if ed is not None:
+                            out.update(ed.hops)
+                        todo.append(c)
+                return out
+
+            # ---- the naming / exclusion oracle: the same project under neutral module names and with no user
+            #      pattern (no module of either version is excluded) must give the same answer, name for name
+            twin_bad = set()
+            if o3 is not None:
+                res.count("twin:compared")
+                if o3["outcome"] != "ok":
+                    res.internal_errors.append({"what": "neutral twin did not run although the renamed project did",
+                                                "out": o3, "files": p["neutral_files"]})
+                else:
+                    r3 = {f: {k: sorted(v) for k, v in e.items()} for f, e in o3["results"].items()}
+                    r2n = {f: {k: sorted(v) for k, v in e.items()} for f, e in nm.rename_back(r2, p["mapping"]).items()}
+                    for fn in sorted(set(r3) | set(r2n)):
+                        if r3.get(fn) == r2n.get(fn):
+                            continue
+                        twin_bad.add(fn)
+                        tag = nm.relation_tag(involved(fn), builtin, p["user"])
+                        sig = f"not-excluded-module-treated-differently:{tag}"
+                        res.count("verdict:" + sig)
+                        res.violations.append({"signature": sig, "case": case, "function": fn, "patterns": p["user"],
+                                               "builtin_patterns": builtin, "renaming": p["mapping"],
+                                               "neutral_files": p["neutral_files"],
+                                               "with_neutral_names_and_no_pattern": r3.get(fn), "as_given": r2n.get(fn)})
             for fn in sp.modules[sp.target_mod]["defs"]:
-                if ents[fn].kind != "func":
+                if ents[fn].kind != "func" or fn in twin_bad:
                     continue
                 if fn not in r1 or fn not in r2:
                     res.violations.append({"signature": "import-changes-answer:caller-missing-from-results", "case": case,
@@ -756,6 +1137,9 @@ def run(tier, seed, build):
                             res.count(f"form:{ed.form}|{ed.kind}")
                             res.count(f"depth:{ed.depth}")
                             res.count(f"chain:{ed.chain}")
+                            tag = nm.relation_tag([ed.module] + ed.hops, builtin, p["user"])
+                            res.count("edge-naming:" + tag)
+                            res.nontrivial.add(common.digest(["naming", tag, ed.form]))
                             want_marks = has_marks(ref, ents[c].marks)
                             if want_marks and not has_marks(got, ents[c].marks):
                                 failed.append(ed)
@@ -777,6 +1161,10 @@ def run(tier, seed, build):
                 if failed_local:
                     for ed, c in failed_local:
                         sig = f"import-changes-answer:{ed.form}:local-{ents[c].kind}-callee-of-followed-{ed.kind}-lost"
+                        if c in sp.shadows and has_marks(got, {f"shadow_{c}"}):
+                            # the target defines a function / class of the same name and signature, and ITS accesses
+                            # appear in place of the callee's
+                            sig = f"same-named-definition-confused:target-{ents[c].kind}-replaces-module-local-callee"
                         res.count("verdict:" + sig)
                         res.violations.append({"signature": sig, "case": {"_edge": ed.meta(), **case}, "function": fn,
                                                "lost_callee": c, "reference": ref, "split": got})
@@ -816,6 +1204,19 @@ def run(tier, seed, build):
             if o1["outcome"] != "ok":
                 res.internal_errors.append({"what": "dedicated single-file reference did not run", "out": o1})
                 continue
+            if p.get("exact"):
+                # same-named definitions: every judged function's entry must equal the reference exactly
+                for fn, role in p["exact"]:
+                    ref = {k: sorted(v) for k, v in o1["results"].get(fn, {}).items()}
+                    got = {k: sorted(v) for k, v in o2["results"].get(fn, {}).items()}
+                    res.nontrivial.add(common.digest(["same-name", p["label"], role]))
+                    if ref and ref == got:
+                        res.count(f"dedicated:same-name:{p['label']}:{role}:same")
+                        continue
+                    sig = f"same-named-definition-confused:{p['label']}:{role}"
+                    res.count("verdict:" + sig)
+                    res.violations.append({"signature": sig, "case": case, "function": fn, "reference": ref, "split": got})
+                continue
             ref = {k: sorted(v) for k, v in o1["results"][p["caller"]].items()}
             got = o2["results"].get(p["caller"], {})
             got = {k: sorted(v) for k, v in got.items()}
@@ -829,22 +1230,41 @@ def run(tier, seed, build):
                 res.count(f"dedicated:{p['label']}:same")
 
         # ---- correspondence: model vs the real call-site target and the real find_call_target_and_ir
-        reqs, metas = [], []
+        reqs, metas, bl_reqs, bl_metas, lc_reqs, lc_metas = [], [], [], [], [], []
         n_corr = len(pairs) if tier == "quick" else min(len(pairs), 400)
         for p in pairs[:n_corr]:
             sp = p["sp"]
             for e in sp.edges:
                 e.assigned, e.arg = p["ents"][e.v].assigned, p["ents"][e.v].arg
-            rows, err = correspondence(p["split"], p["target"], sp.edges)
+            rows, err = correspondence(p["split"], p["target"], sp.edges, p["user"], blacklist_probes(rng, builtin, p["user"]))
             if rows is None:
                 res.internal_errors.append({"what": "in-process analysis failed", "detail": err, "files": p["files"]})
                 continue
+            bl_reqs.append(("blacklist", {"patterns": err["patterns"], "names": err["names"]}))
+            bl_metas.append((p, err))
+            loc = err["local"]
+            res.count("local-env:" + ("hypotheses-of-the-module-local-theorem-hold" if loc["wf"] else "hypotheses-do-not-hold"))
+            if loc["calls"]:
+                lc_reqs.append(("resolve_local", {**loc["env"], "calls": loc["calls"]}))
+                lc_metas.append((p, loc))
             for ed, im, req in rows:
                 if im is None:
                     res.skipped_outside_fragment += 1      # importer module never analysed (below a failed edge)
                     continue
                 reqs.append(("resolve_import", req))
                 metas.append((p, ed, im))
+        for p in ded:
+            if not p.get("exact"):
+                continue
+            rows, err = correspondence(p["split"], "target.py", [])
+            if rows is None:
+                res.internal_errors.append({"what": "in-process analysis failed (same-name row)", "detail": err, "files": p["files"]})
+                continue
+            loc = err["local"]
+            res.count("local-env:" + ("hypotheses-of-the-module-local-theorem-hold" if loc["wf"] else "hypotheses-do-not-hold"))
+            if loc["calls"]:
+                lc_reqs.append(("resolve_local", {**loc["env"], "calls": loc["calls"]}))
+                lc_metas.append(({"files": p["files"], "target": "target.py", "flags": []}, loc))
         for (p, ed, im), mo in zip(metas, model.batch(reqs)):
             res.evaluations += 1
             if "__error__" in mo:
@@ -853,7 +1273,66 @@ def run(tier, seed, build):
             mm = canon_model(mo, im["recordArgs"] is not None)
             res.count("resolve:" + im["outcome"]["k"] + (":" + str(im["outcome"].get("why")) if im["outcome"]["k"] == "none" else ""))
             if mm != im:
-                res.disagreements.append({"case": {"edge": ed.meta(), "files": p["files"]}, "impl": im, "model": mm})
+                res.disagreements.append({"case": {"edge": ed.meta(), "files": p["files"], "patterns": p["user"]},
+                                          "impl": im, "model": mm})
+        # ---- is_in_import_blacklist: model vs the real verdict, and the model vs CPython's `re` (the spec)
+        for (p, v), mo in zip(bl_metas, model.batch(bl_reqs)):
+            if isinstance(mo, dict) and "__error__" in mo:
+                res.internal_errors.append({"what": "blacklist driver error", "detail": mo, "patterns": v["patterns"]})
+                continue
+            for (name, stdlib, origins), real, m in zip(v["names"], v["real"], mo):
+                res.evaluations += 1
+                subjects = [o for o in origins if o is not None] + [name]
+                spec = (not name) or ((not stdlib) and any(re.fullmatch(x, o) for x in v["patterns"] for o in subjects))
+                res.count(f"blacklist-verdict:{'excluded' if real else 'not-excluded'}")
+                if m != spec:
+                    res.internal_errors.append({"what": "Lean model of is_in_import_blacklist disagrees with CPython's re.fullmatch",
+                                                "name": name, "patterns": v["patterns"], "model": m, "spec": spec})
+                if m != real:
+                    res.disagreements.append({"case": {"is_in_import_blacklist": name, "patterns": v["patterns"],
+                                                       "stdlib": stdlib, "origins": origins,
+                                                       "relation": nm.relation_tag([name], builtin, p["user"]) if name else "empty"},
+                                              "impl": real, "model": m})
+        # ---- local calls (Func / Class targets) in every analysed file: __resolve_target_and_ir, model vs real;
+        #      and the module-local property itself on the real answer: the IR comes from the callee's own file
+        for (p, loc), mo in zip(lc_metas, model.batch(lc_reqs)):
+            if isinstance(mo, dict) and "__error__" in mo:
+                res.disagreements.append({"case": {"resolve_local": loc["env"]}, "model": mo})
+                continue
+            if mo["wf"] != loc["wf"]:
+                res.internal_errors.append({"what": "well-formedness of the environment: Lean criterion and harness disagree",
+                                            "lean": mo["wf"], "harness": loc["wf"], "env": loc["env"]})
+            for t, real, m in zip(loc["calls"], loc["real"], mo["out"]):
+                res.evaluations += 1
+                mm = {"k": "none"} if m["k"] == "error" else m
+                same_named_elsewhere = any(k["name"] == t["name"] and k["kind"] == t["kind"] and k["file"] != t["file"]
+                                           for ks in [loc["env"]["target"]] + [x[1] for x in loc["env"]["imports"]] for k in ks)
+                res.count(f"local-call:{t['kind']}:{real['k']}" + (":same-named-definition-in-another-file" if same_named_elsewhere else ""))
+                if same_named_elsewhere:
+                    res.nontrivial.add(common.digest(["local-same-name", t["kind"], real["k"], real.get("inTarget")]))
+                if mm != real:
+                    res.disagreements.append({"case": {"local_call_target": t, "env": loc["env"], "files": p["files"]},
+                                              "impl": real, "model": mm})
+                if real["k"] == "found" and real["key"]["file"] != t["file"]:
+                    sig = f"same-named-definition-confused:in-process:{t['kind']}-resolved-in-another-file"
+                    res.count("verdict:" + sig)
+                    res.violations.append({"signature": sig, "case": {"files": p["files"], "target": p["target"], "flags": p["flags"]},
+                                           "callee": t, "resolved_to": real})
+        # ---- the regex fragment itself: Lean `fullMatch` / `prefixMatch` vs CPython
+        cases = regex_cases(rng, builtin, [x for p in pairs for x in p["user"]], [m for p in pairs[:40] for m in p["sp"].modules])
+        out = model.batch([("regex", {"cases": cases})])[0]
+        if isinstance(out, dict):
+            res.internal_errors.append({"what": "regex driver error", "detail": out})
+        else:
+            for (src, subj), o in zip(cases, out):
+                if o is None:
+                    res.count("regex:outside-fragment")
+                    continue
+                res.count("regex:checked")
+                exp = [re.fullmatch(src, subj) is not None, re.match(src, subj) is not None]
+                if o != exp:
+                    res.internal_errors.append({"what": "Lean regex fragment disagrees with CPython's re", "pattern": src,
+                                                "subject": subj, "model": o, "cpython": exp})
         # ---- the MULTI-file pipeline model (`Pipeline2.run2`) vs the real run with imports followed
         from props import pipeline2
         pipeline2.run_pipeline2_stage(res, random.Random(seed + 7206), 40 if tier == "quick" else 500, model)
@@ -862,6 +1341,11 @@ def run(tier, seed, build):
     finally:
         shutil.rmtree(tmp, ignore_errors=True)
     res.assumptions = [
+        "pipeline2 stage: the whole multi-file pipeline model (target + import BFS + star expansion + location-aware call "
+        "resolution + one shared store over all FileIrs) must reproduce the real in-process run (outcome, document, ordered "
+        "diagnostics, import_irs keys, every FileIr after result generation) on generated 2-4 module projects; file-system "
+        "facts (module name -> origin, blacklist / stdlib / pip verdicts, module_exists, derive_module_name_from_path) are "
+        "per-case parameters computed by the real locator functions",
         "[interp] 'the same answer' = the results entry of every function that stays in the target file, with the callee "
         "spelling mapped back (calls) and without the module-path gets (`m.H` for `m.H.sm()`, `p.m` for `p.m.f()`) that "
         "rattr records for any dotted callee spelling",
@@ -869,12 +1353,15 @@ def run(tier, seed, build):
         "bare-parameter arguments) so that the reference itself is well-defined (C03/C05 findings excluded)",
         "re-export cycles of a NAME (a: from b import f / b: from a import f) are not valid Python; only termination is demanded",
         "`import pkg; pkg.sub.f()` with nothing importing pkg.sub is not valid Python either (AttributeError); reported as a crash class",
-        "follow level 1 (local modules), no exclusions: the blacklist / follow-level rungs are C12's",
-        "pipeline2 stage: the whole multi-file pipeline model (target + import BFS + star expansion + location-aware call "
-        "resolution + one shared store over all FileIrs) must reproduce the real in-process run (outcome, document, ordered "
-        "diagnostics, import_irs keys, every FileIr after result generation) on generated 2-4 module projects; file-system "
-        "facts (module name -> origin, blacklist / stdlib / pip verdicts, module_exists, derive_module_name_from_path) are "
-        "per-case parameters computed by the real locator functions",
+        "follow level 1 (local modules); exclusion patterns are present but never match a generated module in full: what an "
+        "excluded module does to the answer and the follow-level rungs are C12's",
+        "[interp] 'a local module that rattr is configured to follow' = a local module none of whose names (full dotted name, "
+        "full file path) is matched IN FULL by an exclusion pattern (Python re.fullmatch semantics, the documented meaning of "
+        "-F PATTERN / exclude-imports and of the perennial patterns); such a module is followed exactly as if no pattern were "
+        "given and as if it had any other name",
+        "[interp] a function / class of a followed module that has the same name as a definition of the target (or of another "
+        "followed module) is still that module's: every call binds as in Python, module-locally; the single-file reference has "
+        "the clashing definitions renamed apart",
     ]
     return res
 
@@ -888,7 +1375,7 @@ def replay(path):
         tmp = Path(tempfile.mkdtemp(prefix="rattr-c06-replay-"))
         try:
             write_project(tmp, files)
-            print(json.dumps(run_cli(tmp, case.get("target", "target.py")), indent=1)[:4000])
+            print(json.dumps(run_cli(tmp, case.get("target", "target.py"), case.get("flags") or []), indent=1)[:4000])
         finally:
             shutil.rmtree(tmp, ignore_errors=True)
     return 0
